@@ -6,7 +6,7 @@
    table position and its data at its offset.  That the planned ranges of one
    save() never overlap is Properties_C04 (objects without segments) and the
    correspondence run (objects with segments): partial at whole-object level. *)
-From ElfioV Require Import Bytes Mem Stream SectionData Strings Elfio Table Loader Layout Writer Codec_proofs Ostream_proofs Layout_proofs Writer_proofs Segment_proofs Oneseg_proofs Oneseg_writer.
+From ElfioV Require Import Bytes Mem Stream SectionData Strings Elfio Table Loader Layout Writer Codec_proofs Ostream_proofs Layout_proofs Writer_proofs Segment_proofs Oneseg_proofs Oneseg_writer ByName_proofs Save_endtoend.
 Local Open Scope N_scope.
 
 Theorem C03_header_record_decodes :
@@ -145,6 +145,60 @@ Theorem C03_sections_plan_is_the_plan :
       Ok (st, rev_append done [] ++ todo, acc ++ flat_map (sec_writes enc (e_shoff h) (e_shentsize h)) todo).
 Proof. exact sections_plan_noseg. Qed.
 Print Assumptions C03_sections_plan_is_the_plan.
+
+(* THE FUNCTION save() ITSELF, for objects without segments, from the object as the user built it (or loaded and
+   requested it) to the bytes in the stream.  Sections "writable" as they are: offset field within its width, no
+   pending load (quiet: the data have been requested once - C09_quiet_after_first_request - or there is nothing to
+   load them from), a data buffer that covers the size.  Into a fresh unbounded stream, with no translation table and no compression interface: save()
+   returns true, leaves the object the layout step produced, and the stream holds the ELF header at 0, every
+   section's header record at e_shoff + e_shentsize * index and every non-empty section's data at its offset,
+   verbatim - hence, by the record theorems above, a file that decodes to what was put in. *)
+Theorem C03_save_without_segments_end_to_end :
+  forall junk el0 h0 bound,
+    el_hdr el0 = Some h0 -> el_segs el0 = [] -> el_xlat el0 = [] -> el_compr el0 = false ->
+    Forall writable (el_secs el0) ->
+    bound <= 2 ^ 63 -> Forall (fun s => bound <= 2 ^ xw (s_cls s)) (el_secs el0) ->
+    e_ehsize h0 + budget (el_secs el0) + 16 < bound -> bound <= 2 ^ xw (e_cls h0) ->
+    indexed_from 0 (el_secs el0) ->
+    (forall s, In s (el_secs el0) -> s_index s = 0 -> csize s = 0) ->
+    lenN (e_ident h0) = 16 -> e_ehsize h0 = ehdr_size (e_cls h0) ->
+    (forall s, In s (el_secs el0) -> shdr_size (s_cls s) <= e_shentsize h0) ->
+    exists el1 h',
+      layout el0 = Ok (el1, true) /\ el_hdr el1 = Some h' /\
+      (plan_small 0 (noseg_plan h' (el_secs el1)) ->
+       exists os,
+         save junk el0 (new_ostream None) = Ok (el1, os, true) /\
+         let file := os_bytes os in
+         sliceN file 0 (ehdr_size (e_cls h')) = ehdr_bytes h' /\
+         (forall s, In s (el_secs el1) ->
+            sliceN file (e_shoff h' + e_shentsize h' * s_index s) (shdr_size (s_cls s)) = shdr_bytes (e_enc h') s) /\
+         (forall s b, In s (el_secs el1) -> csize s <> 0 -> s_data s = Some b ->
+            sliceN file (sh_offset s) (sh_size s) = firstnN b (sh_size s))).
+Proof. exact save_noseg_saved_file. Qed.
+Print Assumptions C03_save_without_segments_end_to_end.
+
+(* non-vacuity: an ELF32 object with the null section and a 5-byte program section meets every premise, and save()
+   of it evaluates to true with a 144-byte file *)
+Definition ex_sv_secs : list section :=
+  map (fun s => with_load_flags s false true true)      (* their data have been requested once *)
+  [with_index (new_section C32) 0;
+   with_index (with_data (with_size (with_addralign (with_type (new_section C32) 1) 4) 5) (Some [1; 2; 3; 4; 5]) 5) 1].
+Definition ex_sv_el : elfio := with_secs (with_hdr (empty_elfio false) (Some (new_header C32 LSB))) ex_sv_secs.
+Example C03_save_example :
+  Forall writable (el_secs ex_sv_el) /\ indexed_from 0 (el_secs ex_sv_el) /\
+  e_ehsize (new_header C32 LSB) + budget (el_secs ex_sv_el) + 16 < 2 ^ 32 /\
+  match save (fun _ => 0) ex_sv_el (new_ostream None) with
+  | Ok (_, os, ok) => ok = true /\ lenN (os_bytes os) = 144 /\ sliceN (os_bytes os) 52 5 = [1; 2; 3; 4; 5]
+  | Fault _ => False
+  end.
+Proof.
+  split.
+  { change (el_secs ex_sv_el) with ex_sv_secs. unfold ex_sv_secs. cbn [map].
+    apply Forall_cons; [|apply Forall_cons; [|apply Forall_nil]]; (split; [vm_compute; reflexivity|split; [vm_compute; reflexivity|]]); intros b Hb.
+    - discriminate Hb.
+    - injection Hb as <-. vm_compute. discriminate. }
+  split; [vm_compute; auto|]. split; [vm_compute; reflexivity|]. vm_compute. repeat split; reflexivity.
+Qed.
 
 Definition ex_plan : list (N * bytes) := [(0, [1; 2; 3; 4]); (8, [5; 6]); (2, [9])].
 Example C03_example :
